@@ -4,6 +4,7 @@
 mod common;
 mod probe;
 mod c06;
+mod c10;
 mod c11;
 mod c13;
 mod c16;
@@ -18,6 +19,7 @@ fn gen_all(id: &str, seed: u64, n: usize, thorough: bool) -> Vec<String> {
         "C11" => c11::gen_cases(seed, n, thorough),
         "C16" => c16::gen_cases(seed, n, thorough),
         "C13" => c13::gen_cases(seed, n, thorough),
+        "C10" => c10::gen_cases(seed, n, thorough),
         _ => panic!("unknown property {}", id),
     }
 }
@@ -29,6 +31,7 @@ fn run_line(id: &str, line: &str) -> String {
         "C11" => c11::run_line(line),
         "C16" => c16::run_line(line),
         "C13" => c13::run_line(line),
+        "C10" => c10::run_line(line),
         _ => "UNKNOWN-PROPERTY".to_string(),
     });
     match r {
